@@ -492,8 +492,17 @@ WEIRD = ["§", "\t", "ä", "\x00", "\x7f", "'", "$", "@", "\\", "\"", " ", "`"
 
 def mutate_text(rng, text):
     kind = rng.choice(["delete_tok", "dup_tok", "swap_tok", "replace_tok", "char_del", "char_ins", "truncate", "random_tokens",
-                       "weird_char", "line_del", "line_dup", "indent_shift", "json_break", "deep_parens", "huge_number", "huge_number"])
+                       "weird_char", "line_del", "line_dup", "indent_shift", "json_break", "deep_parens", "huge_number", "huge_number", "tab_indent"])
     toks = re.findall(r"\s+|[A-Za-z_][A-Za-z0-9_]*|\d+\.\d+|\d+|\"[^\"\n]*\"|==|!=|<=|>=|.", text)
+    if kind == "tab_indent":
+        # tabs in the indentation (the lexer skips tabs: the nesting is read from the blanks only)
+        lines = text.split("\n")
+        which = rng.choice(["all", "one", "mixed"])
+        for i, l in enumerate(lines):
+            ind = len(l) - len(l.lstrip(" "))
+            if ind >= 4 and (which == "all" or (which == "one" and i == len(lines) // 2) or (which == "mixed" and rng.random() < 0.5)):
+                lines[i] = "\t" * (ind // 4) + " " * (ind % 4) + l[ind:]
+        return kind, "\n".join(lines)
     if kind == "huge_number":
         # a number written with thousands of digits (Python refuses to convert integers above 4300 digits), anywhere
         # a number stands: loop limits, array lengths, expressions, struct literals; positive, negative, fraction, exponent
@@ -1000,6 +1009,19 @@ def _run(ctx, pool, res):
     # directed family: same variable name / path text with different types in different tasks ------------
     shadow = pool.map(job_shadow, [(seed * 31 + i, prop in ("C10", "C19") and i % 2 == 1) for i in range(24 if quick else 240)]) \
         if prop in ("C10", "C11", "C16") else []
+    # directed: programs without any task (only structs, only comments, nothing): the production task is missing
+    if prop in ("C10", "C16", "C19"):
+        for text in ["", "\n", "# only a comment\n", "Struct S\n    a: number\nEnd\n", "\n\nStruct S\n    a: number\nEnd\n\nStruct T\n    s: S\nEnd\n"]:
+            rv = pool.apply(run_validator, (text,))
+            n_eval += 1
+            distinct.add(hashlib.sha256(text.encode()).hexdigest())
+            if rv["exc"]:
+                add_violation(res, seen, "C16", "raises", "validation raised %s on a text without tasks" % rv["exc"], text)
+                add_violation(res, seen, "C10", "fault_raises_no_production_task", "a text without any task: validation raised %s instead of reporting" % rv["exc"], text)
+            elif rv["valid"] is not False or not rv["errs"]:
+                add_violation(res, seen, "C10", "fault_accepted_no_production_task", "a text without any task (no productionTask) is not reported: valid=%r messages=%d" % (rv["valid"], len(rv["errs"])), text)
+            elif not any(e["line"] == 1 for e in rv["errs"]):
+                add_violation(res, seen, "C19", "line_outside_construct_no_production_task", "the whole-file message of a text without tasks carries lines %r, not line 1" % [e["line"] for e in rv["errs"]], text)
     nonstruct = pool.map(job_nonstruct, [(seed * 37 + i,) for i in range(40 if quick else 400)]) if prop in ("C10", "C16", "C19") else []
     for r in nonstruct:
         n_eval += 1
